@@ -14,6 +14,11 @@ class NotPairwise(Exception):
     pass
 
 
+class OutsidePair(NotPairwise):
+    """the loop body addresses a cell that is not one of the two cells of the current pair (e.g. state[i & bit]): whatever it
+    computes, it is not the per-pair transformer the property requires"""
+
+
 class _Continue(Exception):
     pass
 
@@ -66,6 +71,8 @@ class PairIter:
             if e['op'] == '&' and SX.is_node(r) and r['k'] == 'un' and r['op'] == '~' and self._is_bit(SX.strip(r['e'])):
                 self.cell(l)
                 return 0
+            if e['op'] == '&' and (rb or lb):
+                raise OutsidePair('cell %s is 0 or 2^q itself, not a cell of the pair of index i' % SX.show(e)[:30])
         raise NotPairwise('index expression ' + SX.show(e)[:40])
 
     def _is_bit(self, e):
